@@ -1,5 +1,7 @@
 (* Shared driver prelude (textually included after `open <ExtractedModule>`).
    Only parsing/printing of the line protocol; N/positive stay the extracted inductive types. *)
+(* an extracted module may define its own `string` (Coq String.string); restore OCaml's *)
+type string = Stdlib.String.t
 let rec pos_of_int i =
   if i = 1 then XH else if i land 1 = 1 then XI (pos_of_int (i lsr 1)) else XO (pos_of_int (i lsr 1))
 let n_of_int i = if i = 0 then N0 else Npos (pos_of_int i)
@@ -22,9 +24,9 @@ let words (l : string) : string list = List.filter (fun x -> x <> "") (String.sp
 let main_loop (f : string -> string) =
   (try
      while true do
-       let l = input_line stdin in
+       let l = Stdlib.input_line Stdlib.stdin in
        let r = (try f l with Stack_overflow -> "!stackoverflow" | Not_found -> "!notfound" | Failure m -> "!failure:" ^ m) in
-       print_string r; print_char '\n'
+       Stdlib.print_string r; Stdlib.print_char '\n'
      done
    with End_of_file -> ());
-  flush stdout
+  Stdlib.flush Stdlib.stdout
